@@ -46,6 +46,9 @@ const (
 	// SeqOf(kids...).HandleResult(<a result handler of the user's own that returns the FIRST matched node>): the
 	// look-ahead idiom "x, provided that y follows"
 	OpSeqPickFirst
+	// terminal.String(nil, false): a double-quoted string literal with Go escapes - the one stock terminal whose value
+	// is not a slice of the input (it is unquoted) and whose parser works on the file's bytes through Readf
+	OpStr
 )
 
 var opNames = map[Op]string{OpSeqOf: "Seq", OpSeqTry: "SeqTry", OpSeqFirstOrAll: "SeqFOA", OpAny: "Any", OpChoice: "Choice",
@@ -118,6 +121,8 @@ func (e *Expr) String() string {
 		return fmt.Sprintf("%q", e.S)
 	case OpMark:
 		return "mark"
+	case OpStr:
+		return "STR"
 	case OpRTrim, OpLTrim:
 		return fmt.Sprintf("%s(%s,ws%d)", opNames[e.Op], e.Kids[0], e.C)
 	}
@@ -231,7 +236,7 @@ func Token(op Op) string {
 // without consuming input" (over-approximation).
 func exprNullable(e *Expr, nl []bool) bool {
 	switch e.Op {
-	case OpRune, OpKw:
+	case OpRune, OpKw, OpStr:
 		return false
 	case OpEmpty, OpOpt, OpMany, OpSepBy, OpEnd, OpMark:
 		return true
@@ -519,7 +524,7 @@ func (g *Grammar) RefModelled() bool {
 				})
 				return
 			}
-			if e.Op > OpNT && e.Op != OpLTrim && e.Op != OpEnd && e.Op != OpKw && e.Op != OpMark {
+			if e.Op > OpNT && e.Op != OpLTrim && e.Op != OpEnd && e.Op != OpKw && e.Op != OpMark && e.Op != OpStr {
 				ok = false
 			}
 		})
